@@ -519,6 +519,7 @@ func runHistory(h []op) (key string, enabled bool, fails []vrt.Failure) {
 		key = w.m.key()
 		w.probeHTTP(hist)
 		w.probeRTSP(hist)
+		w.probeWS(hist)
 		for _, b := range vrt.Blocked() {
 			x.Failf("stuck-goroutine "+b.Name, "history [%s]: %s", hist, b.Frames)
 		}
@@ -535,8 +536,8 @@ func runHistory(h []op) (key string, enabled bool, fails []vrt.Failure) {
 func main() {
 	xlog.ReplaceGlobal(xlog.New(xlog.NewNopCore()))
 	rep := report.New("C11", "model_checking")
-	rep.Rule = "explicit-state BFS over administration/token histories (save with narrowed, emptied, widened, push-only, admin rights; delete; login; refresh; +2h; +7d) on the real user manager, TokenManager and HTTP service; in every state a probe set is run against the real handlers and compared with a reference monitor computed from the rights as last saved: HTTP-FLV/HLS playlist/HLS segment/websocket upgrade x 4 paths x every issued/none/garbage token, management API x method x token, RTSP/TCP digest sessions (DESCRIBE/SETUP/PLAY and ANNOUNCE/SETUP/RECORD) x credentials x paths incl. user and path switching mid-session; plus the attacker-knowledge closure for token unpredictability"
-	rep.Assumptions = []string{"state key = (u's saved rights, token classes): the handlers read nothing else", "HTTP media probes target paths without a live stream so that the interceptor decision (401/403 vs anything else) is observed without blocking in the streaming handler", "ws-rtsp and WSP entry points are probed in the extension (see DESIGN)"}
+	rep.Rule = "explicit-state BFS over administration/token histories (save with narrowed, emptied, widened, push-only, admin rights; delete; login; refresh; +2h; +7d) on the real user manager, TokenManager and HTTP service; in every state a probe set is run against the real handlers and compared with a reference monitor computed from the rights as last saved: HTTP-FLV/HLS playlist/HLS segment/websocket upgrade x 4 paths x every issued/none/garbage token, management API x method x token, RTSP/TCP digest sessions (DESCRIBE/SETUP/PLAY and ANNOUNCE/SETUP/RECORD) x credentials x paths incl. user and path switching mid-session; the sessions behind an allowed websocket upgrade (ws-rtsp: pull, URL naming another path, publishing on 3 paths, rights narrowed between SETUP and PLAY; WSP: pull, narrowed rights, data channel joined by another user); plus the attacker-knowledge closure for token unpredictability"
+	rep.Assumptions = []string{"state key = (u's saved rights, token classes): the handlers read nothing else", "HTTP media probes target paths without a live stream so that the interceptor decision (401/403 vs anything else) is observed without blocking in the streaming handler", "websocket sessions are created as service.onWebSocketRequest does after TryUpgrade (the upgrade decision itself is probed through the HTTP handler; the hijack needs a real socket)"}
 	depth := 4
 	if rep.Thorough() {
 		depth = 5
